@@ -32,7 +32,13 @@ import (
 	"github.com/semihalev/sdns/middleware/defaults"
 )
 
-type vC17Witness struct{ calls int }
+type vC17Witness struct {
+	calls int
+	q, pq middleware.Queryer // what autoWire injected: the real chain's internal sub-pipelines
+}
+
+func (w *vC17Witness) SetQueryer(q middleware.Queryer)         { w.q = q }
+func (w *vC17Witness) SetPrefetchQueryer(q middleware.Queryer) { w.pq = q }
 
 func (w *vC17Witness) Name() string { return "verif-c17-witness" }
 func (w *vC17Witness) ServeDNS(ctx context.Context, ch *middleware.Chain) {
@@ -75,6 +81,11 @@ func (t *vC17Plain) Write(b []byte) (int, error) {
 }
 func (t *vC17Plain) Close() error { return nil }
 
+// vC17Declares is a transport that itself declares the request internal (the supported channel of Reset)
+type vC17Declares struct{ vC17Plain }
+
+func (t *vC17Declares) Internal() bool { return true }
+
 func vC17CoqIP(ip net.IP) string {
 	switch len(ip) {
 	case 4:
@@ -104,7 +115,7 @@ func vC17CoqRemote(tr middleware.Transport) string {
 	return fmt.Sprintf("(mk_remote %s %s %d %s)", kind, ip, port, says)
 }
 
-var vC17Paths = []string{"wire-udp-job", "decoded-udp", "decoded-tcp", "inline+replay", "wire-tcp-job", "doh-writer", "doq-like-writer", "foreign-addr-type"}
+var vC17Paths = []string{"wire-udp-job", "decoded-udp", "decoded-tcp", "inline+replay", "wire-tcp-job", "doh-writer", "doq-like-writer", "foreign-addr-type", "declares-internal-writer"}
 
 // vC17Serve sends one query from (ip, port) over the given path through the server's production entry
 // points and reports the remote the transport showed and whether the client got a reply.
@@ -136,6 +147,10 @@ func vC17Serve(s *Server, path int, ip net.IP, port int, q *dns.Msg) (remote str
 		return vC17CoqRemote(mw), mw.Written()
 	case 6:
 		tr := &vC17Plain{addr: &net.UDPAddr{IP: ip, Port: port}, proto: "doq"}
+		s.ServeMsg(context.Background(), tr, q)
+		return vC17CoqRemote(tr), tr.msg != nil
+	case 8:
+		tr := &vC17Declares{vC17Plain{addr: &net.UDPAddr{IP: ip, Port: port}, proto: "udp"}}
 		s.ServeMsg(context.Background(), tr, q)
 		return vC17CoqRemote(tr), tr.msg != nil
 	default:
@@ -389,6 +404,109 @@ func TestVerifC17Chain(t *testing.T) {
 				}
 				emitChain(sip.String(), sip, port, path, (si+path+c)%2 == 0, "-sentinel-sweep", -1)
 			}
+		}
+	}
+	// ---- floods: the per-client rate limit on (and reflex in block mode on every second configuration). A flood of
+	// cookie-less queries for distinct cold names from ONE remote with a fresh bucket, over every transport path: an admitted
+	// client with a routable address is held to its budget whatever the transport; a denied source gets nothing; loopback peers,
+	// transports that declare Internal() and genuine sub-queries (through the queryers autoWire injected) are not charged.
+	nf := 2 + n/4
+	for fc := 0; fc < nf; fc++ {
+		rate := 2 + r.Intn(4)
+		var cidrs []string
+		var good []netip.Prefix
+		if r.Intn(3) != 0 {
+			cidrs = []string{"10.0.0.0/8", "2001:db8::/32"}
+			if r.Intn(2) == 0 {
+				cidrs = append(cidrs, "127.0.0.0/8")
+			}
+			for _, e := range cidrs {
+				good = append(good, netip.MustParsePrefix(e))
+			}
+		}
+		witness := &vC17Witness{}
+		middleware.Reset()
+		defaults.RegisterUpTo("resolver")
+		middleware.Register(witness.Name(), func(*config.Config) middleware.Handler { return witness })
+		cfg := &config.Config{Bind: "127.0.0.1:0", Expire: 600, CacheSize: 10240, AccessList: append([]string(nil), cidrs...), ClientRateLimit: rate}
+		reflexOn := fc%2 == 0
+		if reflexOn {
+			cfg.ReflexEnabled = true
+			cfg.ReflexBlockMode = true
+		}
+		cfg.QueryTimeout.Duration = 10 * time.Second
+		middleware.Setup(cfg)
+		s := New(cfg)
+		var pcoq []string
+		for _, g := range good {
+			pcoq = append(pcoq, fmt.Sprintf("mk_prefix %v %s %d", g.Addr().Is4(), vC17Big(g.Addr()).String(), g.Bits()))
+		}
+		for path := 0; path < len(vC17Paths); path++ {
+			for variant := 0; variant < 2; variant++ {
+				var ip net.IP
+				kind := ""
+				switch (path + variant*2 + fc + r.Intn(2)) % 5 {
+				case 0, 1:
+					ip, kind = net.IP{10, byte(fc), byte(path), byte(1 + variant)}, "client"
+				case 2:
+					ip, kind = net.IPv4(10, byte(fc), byte(path), byte(101+variant)), "client-mapped-form"
+				case 3:
+					ip, kind = net.IP{203, 0, 113, byte(1 + path*2 + variant)}, "outside-the-list"
+				default:
+					ip, kind = net.IP{127, 0, byte(path), byte(1 + variant)}, "loopback"
+				}
+				nq := rate + 1 + r.Intn(6)
+				before := witness.calls
+				answered := 0
+				remote := ""
+				start := time.Now()
+				for i := 0; i < nq; i++ {
+					qn++
+					q := new(dns.Msg)
+					q.SetQuestion(fmt.Sprintf("flood%d.c17.test.", qn), dns.TypeA)
+					q.SetEdns0(1232, false)
+					rm, rp := vC17Serve(s, path, ip, 4242, q)
+					remote = rm
+					if rp {
+						answered++
+					}
+				}
+				slow := time.Since(start) > 5*time.Second // the bucket refills one token per 60/rate seconds: a stalled run is no observation
+				delta := witness.calls - before
+				b, _ := json.Marshal(map[string]any{
+					"k":            "chain-flood-" + kind,
+					"coq":          fmt.Sprintf("CaseChainFlood %d [%s] %d %s %d %d %d %d", len(cidrs), strings.Join(pcoq, "; "), rate, remote, path, nq, answered, delta),
+					"nontrivial":   true,
+					"inconclusive": slow,
+					"desc":         map[string]any{"accesslist": cidrs, "client_rate_limit_per_min": rate, "src": ip.String(), "src_ip_bytes": len(ip), "path": vC17Paths[path], "reflex_block_mode": reflexOn, "flood": nq, "answered": answered, "resolver_calls": delta},
+				})
+				f.Write(append(b, '\n'))
+			}
+		}
+		for via, qr := range []middleware.Queryer{witness.q, witness.pq} {
+			nq := rate + 5 + r.Intn(30)
+			answered := 0
+			goFail := ""
+			if qr == nil {
+				goFail = "autoWire injected no queryer into the handler behind the default chain"
+			}
+			for i := 0; i < nq && qr != nil; i++ {
+				qn++
+				q := new(dns.Msg)
+				q.SetQuestion(fmt.Sprintf("subflood%d.c17.test.", qn), []uint16{dns.TypeDNSKEY, dns.TypeTXT, dns.TypeA}[i%3])
+				q.SetEdns0(4096, true)
+				if resp, err := qr.Query(context.Background(), q); err == nil && resp != nil {
+					answered++
+				}
+			}
+			b, _ := json.Marshal(map[string]any{
+				"k":          "chain-subquery-flood",
+				"coq":        fmt.Sprintf("CaseSubFlood %d %d %d %d", via, rate, nq, answered),
+				"go_fail":    goFail,
+				"nontrivial": true,
+				"desc":       map[string]any{"via": []string{"queryer", "prefetch-queryer"}[via], "client_rate_limit_per_min": rate, "reflex_block_mode": reflexOn, "flood": nq, "answered": answered},
+			})
+			f.Write(append(b, '\n'))
 		}
 	}
 	middleware.Reset()
